@@ -332,8 +332,9 @@ class Gen:
         if conv == "c":
             if rng.random() < 0.5:
                 v = rng.choice([rng.randint(33, 126), rng.randint(1, 255), rng.randint(-300, 70000)])
-                while v % 256 == 0:
-                    self.avoided["C16-percent-c-nul"] = self.avoided.get("C16-percent-c-nul", 0) + 1
+                while v % 256 == 0 or v % 256 == 92:
+                    fid = "C16-percent-c-nul" if v % 256 == 0 else "C16-escapes-after-substitution"
+                    self.avoided[fid] = self.avoided.get(fid, 0) + 1
                     v += 1
                 arg = {"k": "I", "v": v, "src": lit(v)}
                 body = chr(v % 256)
@@ -417,17 +418,71 @@ class Gen:
         return {"nl": nl, "args": [{"k": "Q", "text": t}], "kind": "interp",
                 "want": None if w_ is None else w_ + ("\n" if nl else "")}
 
+    def stmt_quirk(self):
+        """statements inside the domains of the known findings and other undocumented corners: no demanded
+        output, only the model (which mirrors the code there, see the _refuted theorems) is compared"""
+        rng = self.rng
+        r = rng.randint(0, 9)
+        n, v = rng.choice(self.ints)
+        if r == 0:      # zero padding of any value, negative ones included
+            sp = rng.choice(["0%d", "0%dd"]) % rng.randint(0, 24)
+            args = [{"k": "Q", "text": "<{%s:%s}>" % (n, sp)}]
+        elif r == 1:    # %c of any value, with flags
+            cv = rng.choice([0, 256, -256, 65536, rng.randint(-1000, 1000)])
+            args = [{"k": "Q", "text": "[%" + rng.choice(["", "-", "0"]) + rng.choice(["", "3", "7"]) + "c|%d]"},
+                    {"k": "I", "v": cv, "src": lit(cv)}, {"k": "I", "v": 1, "src": "1"}]
+        elif r == 2:    # escapes in a literal that is one of several arguments
+            t = rand_text(rng, 3) + rng.choice(["\\n", "\\t", "\\\\", "\\%", "\\r", "\\q"]) + rand_text(rng, 3)
+            args = [{"k": "Q", "text": t}, self.int_arg()]
+            if rng.random() < 0.5:
+                args.reverse()
+        elif r == 3:    # escapes in an interpolated literal
+            t = rand_text(rng, 3) + rng.choice(["\\n", "\\t", "\\\\", "\\%"]) + "{" + n + "}" + rand_text(rng, 2)
+            args = [{"k": "Q", "text": t}]
+        elif r == 4:    # escaped backslash / escaped percent next to a directive
+            t = rand_text(rng, 2) + rng.choice(["\\\\%d", "\\%%d", "\\\\%%", "%\\%d", "\\%d%d", "\\\\\\%d"]) + "|" + rand_text(rng, 2)
+            args = [{"k": "Q", "text": t}, self.int_arg()] + ([self.int_arg()] if rng.random() < 0.5 else [])
+        elif r == 5:    # NUL escape, unknown escapes, trailing text after them
+            t = rand_text(rng, 3) + rng.choice(["\\0", "\\q", "\\'", "\\a"]) + rand_text(rng, 3)
+            args = [{"k": "Q", "text": t}] + ([{"k": "Q", "text": "%d"}, self.int_arg()] if rng.random() < 0.3 else [])
+        elif r == 6:    # '$' in all positions
+            t = rng.choice(["$", "a$b", "$$", "${{", "$${%s}" % n, "${%s}$" % n, "{%s}$x" % n, "$ {%s}" % n, "{{$}}", "$}}"])
+            args = [{"k": "Q", "text": t}]
+        elif r == 7:    # directives that are not recognised on their own / unknown conversions / missing and extra arguments
+            t = rng.choice(["%x", "%u", "%i", "%o", "%X", "%-5d", "%+d", "%q %d", "%5", "%d %", "%d %5", "%l", "%ll", "%d%lld%ld",
+                            "%5%|%d", "%hd %d", "%z%d", "100%_sure %d", "%", "%%", "%d%%", "%5s|%-5s|%05s"])
+            args = [{"k": "Q", "text": t}] + [self.int_arg() for _ in range(rng.randint(0, 3))]
+        elif r == 8:    # braces that do not interpolate, width/spec corners
+            t = rng.choice(["}}", "a}}b", "}", "{{", "{{}}", "{%s:}" % n, "{%s:0}" % n, "{%s:00}" % n, "{%s:007}" % n, "{%s:5q}" % n,
+                            "{%s:-5}" % n, "{%s:+5}" % n, "{%s: 5}" % n, "{%s:5 }" % n, "{%s:.3}" % n, "{%s:8.3f}" % n, "{%s:x5}" % n,
+                            "{%s:5:x}" % n, "{%s:o}" % n, "{%s:5b}" % n, "{ %s }" % n, "{%s :3}" % n])
+            for key in (" %s " % n, "%s " % n):
+                if [key, "I", v] not in self.env:
+                    self.env.append([key, "I", v])
+            args = [{"k": "Q", "text": t}]
+        else:           # string values through the integer converters and vice versa
+            sn, sv = rng.choice(self.strs)
+            t = rng.choice(["[%d|%s]", "[%5d|%-6s]", "[%x|%c]", "[%s|%s|%d]"])
+            args = [{"k": "Q", "text": t}, {"k": "S", "v": sv, "src": sn}, rng.choice([self.int_arg(), {"k": "S", "v": sv, "src": sn}])]
+            if t.count("%") == 3:
+                args.append(self.int_arg())
+        return {"nl": 1, "args": args, "want": None, "kind": "quirk"}
+
     def stmt_grid(self, idx):
         """systematic sweep: every (converter, flags, width 0..20) shape with a pool value"""
         rng = self.rng
         shapes = GRID
-        kind, a, b, w = shapes[idx % len(shapes)]
+        shape = shapes[idx % len(shapes)]
         v = POOL[(idx // len(shapes) * 37 + idx * 11 + rng.randint(0, 5)) % len(POOL)]
         name = None
         for n_, v_ in self.ints:
             if rng.random() < 0.3:
                 name, v = n_, v_
                 break
+        return self.stmt_grid_exact(shape, v, name)
+
+    def stmt_grid_exact(self, shape, v, name=None):
+        kind, a, b, w = shape
         src = name or lit(v)
         if kind == "printf":
             conv, flags = a, b
@@ -480,7 +535,9 @@ def gen_program(seed, k, tier, n_stmts):
     stmts = []
     for j in range(n_stmts):
         r = rng.random()
-        if r < 0.30:
+        if r < 0.07:
+            stmts.append(g.stmt_quirk())
+        elif r < 0.32:
             stmts.append(g.stmt_grid(k * n_stmts + j))
         elif r < 0.52:
             stmts.append(g.stmt_plain())
@@ -500,6 +557,19 @@ def gen_program(seed, k, tier, n_stmts):
         ending = "return"
     return {"k": k, "decls": g.decls, "env": g.env, "stmts": stmts, "ending": ending,
             "main": rng.choice(["void", "int"]), "avoided": g.avoided}
+
+
+def grid_programs(per_prog):
+    """the complete grid: every directive / spec shape x every boundary value, in order"""
+    pairs = [(sh, v) for sh in GRID for v in POOL]
+    out = []
+    for k in range(0, len(pairs), per_prog):
+        g = Gen(rng_for(0, "c16-grid", k), k)
+        g.decls, g.env = [], []
+        stmts = [g.stmt_grid_exact(sh, v) for sh, v in pairs[k:k + per_prog]]
+        out.append({"k": k, "decls": [], "env": g.env, "stmts": stmts, "ending": "normal", "main": "void",
+                    "avoided": g.avoided})
+    return out, len(pairs)
 
 
 # ------------------------------------------------------------------ rendering a description
@@ -691,19 +761,51 @@ def shrink_stmt(q, runner):
     return q
 
 
+def shrink_program(p, runner):
+    """whole-program disagreement: drop statements while implementation and model still differ; statements
+    without a demanded output go first so that the property's own oracle can speak about the result"""
+    def fails(q):
+        m, = run_model([model_lines(q)])
+        return check_program(q, m, runner.run(program_src(q))) is not None
+    cur = p
+    special = lambda s: "fail" in s or "ret" in s
+    cand = dict(p, stmts=[s for s in p["stmts"] if special(s) or s.get("want") is not None])
+    if len(cand["stmts"]) < len(p["stmts"]) and fails(cand):
+        cur = cand
+    chunk = max(1, len(cur["stmts"]) // 2)
+    budget = 80
+    while chunk >= 1 and budget > 0:
+        i, changed = 0, False
+        while i < len(cur["stmts"]) and budget > 0:
+            rest = cur["stmts"][:i] + cur["stmts"][i + chunk:]
+            cand = dict(cur, stmts=rest)
+            budget -= 1
+            if rest and fails(cand):
+                cur, changed = cand, True
+            else:
+                i += chunk
+        if not changed:
+            chunk //= 2
+    return cur
+
+
 def report_bad(rep, p, runner, origin):
     bad = locate(p, runner)
     if not bad:
         # only the whole program fails (ordering / flush / exit status)
+        p = shrink_program(p, runner)
         m, = run_model([model_lines(p)])
         o = runner.run(program_src(p))
         d = check_program(p, m, o) or {"what": "vanished on re-run"}
-        concrete = d.get("what") == "spec" or (want_bytes(p) is not None and (o[1] != want_bytes(p) or o[0] != want_rc(p)))
+        wb = want_bytes(p)
+        concrete = d.get("what") == "spec" or (wb is not None and (o[1] != wb or (want_rc(p) is not None and o[0] != want_rc(p))))
         rep.violation("prog", {"program": program_src(p), "desc": p, "impl_rc": o[0], "impl_stdout_hex": o[1].hex(),
                                "model": [m[0], (m[1] or b"").hex(), m[2]], "diff": {k: (v.hex() if isinstance(v, bytes) else v) for k, v in d.items()},
                                "origin": origin, "broken": "whole-program output (order / flush before exit / exit status)"},
-                      "stdout or exit status of a %d-statement program (%s ending) differs from the model although every single statement agrees"
-                      % (len(p["stmts"]), p["ending"]), no_failing_input=not concrete)
+                      "stdout or exit status of a %d-statement program (%s ending) differs from the model although every single statement agrees: %s"
+                      % (len(p["stmts"]), p["ending"],
+                         ("property demands stdout %r rc %s, implementation gives %r rc %d" % (wb[:100], want_rc(p), o[1][:100], o[0]))
+                         if wb is not None else "no demanded output for some statement"), no_failing_input=not concrete)
         return
     for (i, q, m, o, d) in bad[:3]:
         q = shrink_stmt(q, runner)
@@ -764,8 +866,8 @@ def _run(rep, seed, tier, runner):
     if os.path.exists(corpus):
         for p in json.load(open(corpus)):
             progs.append(p); origin.append("corpus")
-    seeds = [seed] if tier == "quick" else [seed, seed * 1000 + 1, seed * 1000 + 2, seed * 1000 + 3]
-    n_prog = 420 if tier == "quick" else 2600
+    seeds = [seed] if tier == "quick" else [seed, seed * 1000 + 1, seed * 1000 + 2, seed * 1000 + 3, seed * 1000 + 4]
+    n_prog = 2200 if tier == "quick" else 3600
     n_stmts = 60 if tier == "quick" else 110
     for sd in seeds:
         for k in range(n_prog):
@@ -780,6 +882,12 @@ def _run(rep, seed, tier, runner):
             p["stmts"].insert(rng_for(seed, "c16-big", k).randint(300, 600), {"fail": FAILS[k % len(FAILS)]})
             p["ending"] = "error"
         progs.append(p); origin.append("big-then-error")
+
+    n_pairs = 0
+    if tier == "thorough":
+        gp, n_pairs = grid_programs(300)
+        for p in gp:
+            progs.append(p); origin.append("exhaustive-grid")
 
     ms = run_model([model_lines(p) for p in progs])
     outs = common.pmap(lambda p: runner.run(program_src(p)), progs)
@@ -820,7 +928,10 @@ def _run(rep, seed, tier, runner):
                 "additionally vs the output demanded by the property's own reading where one exists (%d statements). "
                 "evaluations = print/println statements executed; distinct = distinct statement source texts; non-trivial = "
                 "more than one argument, or a literal containing { } %% or a backslash (format path, interpolation, escapes, joining)" % want_checked,
-        "exhaustive": False,
+        "exhaustive": tier == "thorough",
+        "exhaustive_space": ("all %d pairs (printf shape or interpolation spec with width 0..20) x (boundary value) enumerated completely; "
+                             "in the domain of known finding C16-interp-zero-pad-sign (0 flag, negative value, width > digits) the value is negated"
+                             % n_pairs) if tier == "thorough" else "none in the quick tier (rotating sample of the grid)",
         "grid": "every (converter in d lld i u x X o) x (flags '', 0, -, -0, 00) x width 0..20 printf shape and every interpolation spec "
                 "(N Nd 0N 0Nd Nx 0Nx NX 0NX Nb 0Nb) x width 0..20 is visited in rotation with boundary values (%d shapes, %d values: "
                 "+-2^k+{-2..2}, type limits +-1, 10^k+-1)" % (len(GRID), len(POOL)),
@@ -838,6 +949,12 @@ def _run(rep, seed, tier, runner):
         report_bad(rep, p, runner, o)
 
     known_findings_replay(rep, runner)
+    if tier == "thorough":
+        rc, o, e = common.sh(["coqchk", "-silent", "-o", "-Q", ".", "Cb", "Cb.C16.Properties_C16"], cwd=common.COQ, timeout=1200)
+        txt = (o + e)
+        rep.coverage["coqchk"] = {"rc": rc, "axioms": "<none>" if "* Axioms: <none>" in txt else txt[-600:]}
+        if rc != 0:
+            rep.violation("coqchk", {"log": txt[-3000:]}, "coqchk rejects the compiled closure of Properties_C16", True)
     rep.assumptions += [
         "the model is tied to output_manager.cpp / evaluator.cpp / the parser by differential testing, not proof",
         "expressions inside {...} and integer arguments are evaluated by the harness (variables, literals, + - * on small ints), not by the model",
